@@ -26,8 +26,10 @@ OffersAll == {<<"int", "lit", I("5")>>, <<"int", "var", Var("xi")>>, <<"int", "c
               <<"slicebool", "var", Var("sb")>>, <<"slicestring", "var", Var("ss")>>, <<"slicestring", "lit", SliceLit("string", <<>>)>>,
               <<"void", "call", CallE("v0", <<>>)>>, <<"multi", "call", CallE("m2", <<>>)>>,
               \* the same behind parentheses: a group has the type (and the value count) of what it holds
-              <<"void", "grp", Grp(CallE("v0", <<>>))>>, <<"multi", "grp", Grp(CallE("m2", <<>>))>>, <<"int", "grpcall", Grp(CallE("fnI", <<I("1")>>))>>, <<"string", "grp", Grp(Var("xs"))>>}
-Offers == IF Quick THEN {o \in OffersAll : o[2] \in {"var", "call", "grp"} /\ ~(o[1] = "int" /\ o[2] = "call") /\ ~(o[1] = "sliceint" /\ o[2] = "call")} \cup {<<"string", "nil", Nil>>}
+              <<"void", "grp", Grp(CallE("v0", <<>>))>>, <<"multi", "grp", Grp(CallE("m2", <<>>))>>, <<"int", "grpcall", Grp(CallE("fnI", <<I("1")>>))>>, <<"string", "grp", Grp(Var("xs"))>>,
+              \* a command call delivers three values (stdout, stderr, status), a pipeline likewise
+              <<"multi", "app", App(<<Stage("pa", <<StrL("a")>>)>>)>>, <<"multi", "pipe", Grp(App(<<Stage("pa", <<>>), Stage("pb", <<StrL("b")>>)>>))>>}
+Offers == IF Quick THEN {o \in OffersAll : o[2] \in {"var", "call", "grp", "app"} /\ ~(o[1] = "int" /\ o[2] = "call") /\ ~(o[1] = "sliceint" /\ o[2] = "call")} \cup {<<"string", "nil", Nil>>}
           ELSE OffersAll
 
 PosNames == {"not", "andL", "andR", "orL", "orR", "subL", "subR", "mulL", "mulR", "divL", "divR", "modL", "modR", "addIntL", "addIntR", "addStrL", "addStrR",
